@@ -4,7 +4,7 @@ alone, so that running the same command again takes the same number again instea
 from vx.unit import Unit
 from vx.extract import C
 
-PROPS = ['C18', 'C01']
+PROPS = ['C18', 'C03', 'C01']
 HEADER = 'use vstd::prelude::*;\nverus! {\n'
 FOOTER = '\n} // verus!\nfn main() {}\n'
 
@@ -42,9 +42,35 @@ impl Shell {
         C('C18 every-number-above-the-candidate-is-taken', 'forall|k: int| candidate_fd_num < k <= 63 ==> params.open_files.fds().contains(k)'),
     ], decreases='candidate_fd_num')
     u.add(f)
+    # ---- the head: the subshell of a process substitution is a plain clone of the shell, its parameters those of the command
+    from .common import runtime_options_item
+    runtime_options_item(u)
+    u.raw('''pub uninterp spec fn clone_spec(sh: Shell) -> Shell;
+impl Clone for Shell { #[verifier::external_body] fn clone(&self) -> (r: Self) ensures r == clone_spec(*self) { unimplemented!() } }
+impl Shell {
+    #[verifier::external_body] pub fn options(&self) -> &RuntimeOptions { unimplemented!() }
+    // handing out a mutable view of the options: whatever is done through it, the shell is no longer known to be the clone it was
+    #[verifier::external_body] pub fn options_mut(&mut self) -> &mut RuntimeOptions { unimplemented!() }
+}
+pub enum ProcessGroupPolicy { NewProcessGroup, SameProcessGroup }
+pub struct ChildParameters { pub suppress_errexit: bool, pub process_group_policy: ProcessGroupPolicy }
+impl ExecutionParameters { #[verifier::external_body] pub fn clone_child(&self) -> (r: ChildParameters) ensures r.suppress_errexit == self.vx_suppress() { unimplemented!() }
+    pub uninterp spec fn vx_suppress(&self) -> bool; }
+''')
+    fn2 = 'process_substitution_subshell'
+    g = interp.slice('setup_process_substitution', r'^\s*let mut subshell = shell\.clone\(\);', r'^\s*child_params\.process_group_policy = ',
+                     'fn process_substitution_subshell(shell: &Shell, params: &ExecutionParameters) -> (Shell, ChildParameters)', fn2)
+    g.r1()
+    g.resub(r'\bparams\.clone\(\)', 'params.clone_child()', 'R14', 'derived Clone of ExecutionParameters -> stub (projection: the exemption flag and the process-group policy)', count=1)
+    g.resub(r'\n\}$', '\n    (subshell, child_params)\n}', 'R6', 'wrapper epilogue: the two live variables', count=1)
+    g.sig(fn2, ret='r', ensures=[
+        C('C03 the-body-of-a-process-substitution-runs-in-a-plain-copy-of-the-shell-with-its-options-errexit-included', 'r.0 == clone_spec(*shell)'),
+        C('C03 and-under-the-errexit-exemption-of-the-command-it-belongs-to', 'r.1.suppress_errexit == params.vx_suppress()'),
+    ])
+    u.add(g)
     u.raw(FOOTER)
     u.assume('external_body', 'OpenFiles is opaque with an abstract set of descriptor numbers; error::unimp returns Err')
-    u.assume('uninterp', 'OpenFiles::fds')
+    u.assume('uninterp', 'OpenFiles::fds, clone_spec, ExecutionParameters::vx_suppress')
     u.assume('stub', 'the rest of setup_process_substitution (pipe, subshell task) and what `exec` persists are outside this unit (U28)')
-    u.expected_min_fns = 1
+    u.expected_min_fns = 2
     return u
